@@ -50,6 +50,9 @@ def parseOp (pw : Pid → List Wid) (j : Json) : Except String (List Op) := do
   | "finalize" => return [.finalize p]
   | "idle" => return [.idleWorkers p]
   | "call" => return [.callW p (← Driver.getNat j "w")]
+  | "alive_workers" => return [.aliveWorkers p false]
+  | "is_alive" => return [.isAliveW p (← Driver.getNat j "w")]
+  | "acquired_workers" => return [.acquiredWorkers p]
   | "run" => return runScript pw p (← Driver.getNat j "tries")
   | "call_and_wait" => return callAndWaitScript pw p
   | "as_completed" => return asCompletedScript p (← (← Driver.getArr j "body").toList.mapM parseBody)
@@ -331,6 +334,10 @@ def xlabel (x : X) (t : Tid) : String × String :=
        | some .unit => ("fwait", "c.rSub.wait")
        | some (.code 1) => ("sleep", if x.env.now - x.env.sticker t < x.env.thr then "c.rSub.sleepAlive" else "c.rSub.disconnected")
        | _ => ("sleep", "c.rSub.sleepCap"))
+    | .sSub .. =>
+      (match lastRes x t with
+       | some (.code 1) => ("sleep", if x.env.now - x.env.sticker t < x.env.thr then "c.sSub.sleepAlive" else "c.sSub.disconnected")
+       | _ => ("sleep", "c.sSub.sleepCap"))
     | .cAcq .. => ("clock", "c.cAcq")
     | .cWait .. => ("wdone", "c.cWait")
     | .rErr _ | .fin .. => ("end", "end")
@@ -338,6 +345,7 @@ def xlabel (x : X) (t : Tid) : String × String :=
     match x.env.prog t with
     | .run .. :: _ => ("start", "c.start.run")
     | .callAndWait .. :: _ => ("start", "c.start.caw")
+    | .submitNB .. :: _ => ("start", "c.start.submit")
     | .prim :: _ => ("start", "start")
     | [] =>
     match (x.base.T t).script with
@@ -373,7 +381,7 @@ structure XSetup where
 
 def isComposite (j : Json) : Bool :=
   match j.getObjValAs? String "op" with
-  | .ok "run" | .ok "call_and_wait" => true
+  | .ok "run" | .ok "call_and_wait" | .ok "submit" => true
   | _ => false
 
 def parseX (j : Json) : Except String XSetup := do
@@ -399,7 +407,11 @@ def parseX (j : Json) : Except String XSetup := do
         if isComposite oj then
           let p ← Driver.getNat oj "p"
           let raises := (oj.getObjValAs? String "task").toOption == some "raise"
-          pg := pg ++ [if (← Driver.getStr oj "op") == "run" then TOp.run p raises else TOp.callAndWait p raises]
+          let opn ← Driver.getStr oj "op"
+          let wv := (getOptNat oj "w").getD 0
+          pg := pg ++ [if opn == "run" then TOp.run p raises
+                       else if opn == "submit" then TOp.submitNB p wv raises
+                       else TOp.callAndWait p raises]
         else
           sc := sc ++ (← parseOp pw oj)
           pg := pg ++ [TOp.prim]
@@ -427,9 +439,10 @@ def pieceCandidates (pw : Pid → List Wid) (p : Pid) : List Op :=
 def ctlPool (x : X) (t : Tid) : Option Pid :=
   match x.env.ctl t with
   | .rTick p _ | .rCond p _ _ | .rAlive p _ _ | .rErr p | .rNext p _ _ | .rClockN p _ _ _ | .rSub p _ _
-  | .fin p _ | .cAcq p _ | .cWait p _ _ => some p
+  | .fin p _ | .cAcq p _ | .cWait p _ _ | .sSub p _ _ => some p
   | .idle => match x.env.prog t with
     | .callAndWait p _ :: _ => some p
+    | .submitNB p _ _ :: _ => some p
     | _ => none
 
 def pushOp (x : X) (t : Tid) (op : Op) : X :=
